@@ -240,7 +240,7 @@ def decomp_whole_output(ctx, F, prefix="C14.D1"):
         ctx.touch(b, *F.closures_of(b))
         name = im["self"].rsplit("::", 1)[-1]
         calls = [c for bd in bodies for c in bd.calls()]
-        whole = [c for c in calls if c.name() in ("read_to_end", "decode_all", "copy", "read_to_string", "decompress_size_prepended")]
+        whole = [c for c in calls if c.name() in ("read_to_end", "decode_all", "copy", "copy_decode", "read_to_string", "decompress_size_prepended")]
         capped = [c for c in calls if strip_generics(c.callee) in ("std::io::Read::take", "std::io::Read::read", "std::io::Read::read_exact", "std::io::Read::by_ref", "std::io::Read::chain")
                   or "io::Take<" in c.self_ty or "io::Take<" in " ".join(c.arg_tys)]
         ctx.check(bool(whole) and not capped, prefix + ".whole-output", "decompress:%s:truncating" % name,
